@@ -613,6 +613,8 @@ Proof.
   - apply save_inv; assumption.
   - apply load_inv; assumption.
   - exact HI.
+  - exact HI.
+  - exact HI.
 Qed.
 
 Fixpoint ops_ok (cfg : config) (s : st) (ops : list op) : Prop :=
